@@ -35,7 +35,8 @@ def try_to_merge_ops(ops1, ops2):
             return None
         if len(ops1_columns_used.intersection(ops2_columns_produced)) > 0:
             return None  # merged step would read and assign the same column
-        new_ops = {k: ops1[k] for k in ops1.keys() if k not in common_produced}
+        # a column keeps the place the first step gave it (the order of the produced columns is declared)
+        new_ops = {k: (ops2[k] if k in common_produced else ops1[k]) for k in ops1.keys()}
         new_ops.update(ops2)
         return new_ops
     # check required disjointness conditions
